@@ -368,51 +368,54 @@ theorem tree_match_is_bytewise : Gen.scanCfg.lossy = false := by decide
 theorem match_fuel_irrelevant (p t : List Nat) : (Code.globLoop (Code.globFuel p t) p t none).isSome = true :=
   globLoop_fuel_enough p t
 
-/-- **The matcher computes glob semantics** on every pattern of the agreed fragment — any mix of
-    literals, `?`, `*` (any number), classes, negated classes, ranges and escapes that
-    `Spec.tokenize` accepts — and every text: the single-star backtracking loop of engine.rs gives
-    the verdict of the textbook recursive matcher over the same characters. -/
-theorem match_refines_glob (p t : List Nat) (toks : List Spec.Tok) (h : Spec.tokenize p = some toks) :
-    Code.globChars p t = Spec.matchToks toks t :=
-  globChars_eq_matchToks p t toks h
+/-- The `'['` arm of `pattern_matches` still walks the class member by member as Redis's
+    `stringmatchlen` does (escapes inside the class, ordered range bounds, `x-y` whenever two more
+    characters follow, an unterminated class runs to the end).  Stops checking when that arm is
+    rewritten (then `Code.classWalk` must follow). -/
+theorem tree_glob_class_is_redis : Gen.globClassRedis = true := by decide
 
-/-- **Full statement (byte-wise matcher, `lossy = false`)**: for every pattern of the fragment and
-    every key, MATCH accepts the key exactly when glob matching over bytes does. -/
-theorem match_refines (pat key : Bytes) (toks : List Spec.Tok) (hw : Spec.tokenize pat = some toks) :
-    Spec.matchBytes pat key = some (Code.matchBytes false pat key) := by
+/-- **The matcher computes glob semantics — for EVERY pattern and every text.**  Any mix of
+    literals, `?`, `*` (any number), classes, negated classes, ranges, escapes inside and outside
+    classes, also unterminated classes and `[`, `[^`, `[]`, `[a-]`: the single-star backtracking
+    loop of engine.rs gives the verdict of the textbook recursive matcher over the tokenised
+    pattern.  `p` and `t` are plain lists of symbols, so the statement serves every caller of
+    `pattern_matches` (SCAN family MATCH, KEYS, PSUBSCRIBE). -/
+theorem match_refines_glob (p t : List Nat) :
+    Code.globChars p t = Spec.matchToks (Spec.tokenize p) t :=
+  globChars_eq_matchToks p t
+
+/-- **Full statement (byte-wise matcher, `lossy = false`, the tree)**: for every pattern and every
+    key, MATCH accepts the key exactly when glob matching over bytes does.  No exclusion. -/
+theorem match_refines (pat key : Bytes) : Spec.matchBytes pat key = Code.matchBytes false pat key := by
   unfold Spec.matchBytes Code.matchBytes
-  rw [hw]
   simp only [Bool.false_eq_true, if_false]
-  rw [globChars_eq_matchToks pat key toks hw]
-  rfl
+  rw [globChars_eq_matchToks pat key]
 
-/-- **The code as it is (`lossy = true`)**: the same holds when pattern and key are ASCII.
-    (Exclusions: a byte ≥ 0x80 on either side — see `match_sound_fails_on_invalid_utf8`; a pattern
-    outside the fragment — see `match_quirks_outside_fragment`.) -/
-theorem match_refines_partial (pat key : Bytes) (hp : ∀ b ∈ pat, b < 128) (hk : ∀ b ∈ key, b < 128)
-    (toks : List Spec.Tok) (hw : Spec.tokenize pat = some toks) :
-    Spec.matchBytes pat key = some (Code.matchBytes true pat key) := by
+/-- **The matcher on lossily decoded text (`lossy = true`, the tree before e25f0f8)**: the same
+    holds when pattern and key are ASCII.  (Exclusion: a byte ≥ 0x80 on either side — see
+    `match_sound_fails_on_invalid_utf8`.) -/
+theorem match_refines_partial (pat key : Bytes) (hp : ∀ b ∈ pat, b < 128) (hk : ∀ b ∈ key, b < 128) :
+    Spec.matchBytes pat key = Code.matchBytes true pat key := by
   unfold Spec.matchBytes Code.matchBytes
   simp only [if_true]
-  rw [decodeLossy_ascii pat hp, decodeLossy_ascii key hk, hw, globChars_eq_matchToks pat key toks hw]
-  rfl
+  rw [decodeLossy_ascii pat hp, decodeLossy_ascii key hk, globChars_eq_matchToks pat key]
 
-/-- Soundness against the prescribed filter: under the same two conditions every key returned by
-    a SCAN call with `MATCH pat` satisfies the glob pattern over bytes. -/
-theorem scan_sound_glob_partial (g : Cfg) (hg : g.ok) (db : Db) (cursor count : Nat) (pat : Bytes) (ty : Option Bytes)
+/-- Soundness against the prescribed filter: every key returned by a SCAN call with `MATCH pat`
+    satisfies the glob pattern over bytes — for every pattern (with the lossy matcher: when
+    pattern and key are ASCII). -/
+theorem scan_sound_glob (g : Cfg) (hg : g.ok) (db : Db) (cursor count : Nat) (pat : Bytes) (ty : Option Bytes)
     (k : Bytes) (hk : k ∈ (Code.scan g db cursor count (some pat) ty).2)
-    (hp : g.lossy = true → ∀ b ∈ pat, b < 128) (hka : g.lossy = true → ∀ b ∈ k, b < 128)
-    (toks : List Spec.Tok) (hw : Spec.tokenize pat = some toks) :
-    Spec.matchBytes pat k = some true := by
+    (hp : g.lossy = true → ∀ b ∈ pat, b < 128) (hka : g.lossy = true → ∀ b ∈ k, b < 128) :
+    Spec.matchBytes pat k = true := by
   have := (scan_sound g hg db cursor count (some pat) ty k hk).2
   simp only [Code.matchOpt] at this
   cases hl : g.lossy with
   | true =>
     rw [hl] at this
-    rw [match_refines_partial pat k (hp hl) (hka hl) toks hw, this]
+    rw [match_refines_partial pat k (hp hl) (hka hl), this]
   | false =>
     rw [hl] at this
-    rw [match_refines pat k toks hw, this]
+    rw [match_refines pat k, this]
 
 /-- `MATCH *` accepts every key (any bytes), lossy or not. -/
 theorem match_star_all (lossy : Bool) (key : Bytes) : Code.matchBytes lossy [42] key = true := by
@@ -453,24 +456,31 @@ theorem match_prefix_star (pre key : Bytes) (hp : ∀ x ∈ pre, plain x ∧ x <
   rw [decodeLossy_ascii _ hpa, decodeLossy_ascii key hk]
   exact globChars_prefix_star pre key (fun x hx => (hp x hx).1)
 
-/-- Outside the fragment the matcher has quirks of its own (none of them is counted as a C19
-    violation; the patterns have no agreed meaning): an unclosed `[` never matches, not even the
-    key `[`; `[abc` does not match `a`; `\` is not an escape inside a class, so `[\]]` does not
-    match `]`; a reversed range `[z-a]` is empty; in `[a-]` the `-` is a member. -/
-theorem match_quirks_outside_fragment :
-    Spec.tokenize [91] = none ∧ Code.globChars [91] [91] = false ∧
-    Spec.tokenize [91, 97, 98, 99] = none ∧ Code.globChars [91, 97, 98, 99] [97] = false ∧
-    Spec.tokenize [91, 92, 93, 93] = none ∧ Code.globChars [91, 92, 93, 93] [93] = false ∧
-    Spec.tokenize [91, 122, 45, 97, 93] = none ∧ Code.globChars [91, 122, 45, 97, 93] [98] = false ∧
-    Spec.tokenize [91, 97, 45, 93] = none ∧ Code.globChars [91, 97, 45, 93] [45] = true := by
+/-- The edge patterns, as code and specification decide them (Redis's verdicts): `[` alone and
+    `[]` match nothing; `[^` alone matches any one character; an unterminated class works
+    (`[abc` matches `a`); `\]` is a member (`[\]]` matches `]`, `[a\-c]` matches `-` but not `b`);
+    a reversed range is ordered (`[z-a]` matches `b`); `[a-]` is the range from `]` to `a` (matches
+    `_`, not `-`); `[]-a]` is the empty class followed by the literal `-a]`. -/
+theorem match_class_edge_cases :
+    Code.globChars [91] [91] = false ∧ Code.globChars [91, 93] [120] = false ∧
+    Code.globChars [91, 94] [120] = true ∧
+    Code.globChars [91, 97, 98, 99] [97] = true ∧
+    Code.globChars [91, 92, 93, 93] [93] = true ∧
+    Code.globChars [91, 97, 92, 45, 99, 93] [45] = true ∧ Code.globChars [91, 97, 92, 45, 99, 93] [98] = false ∧
+    Code.globChars [91, 122, 45, 97, 93] [98] = true ∧
+    Code.globChars [91, 97, 45, 93] [95] = true ∧ Code.globChars [91, 97, 45, 93] [45] = false ∧
+    Code.globChars [91, 93, 45, 97, 93] [45] = false ∧
+    Spec.tokenize [91, 97, 45, 93] = [.cls false [(93, 97)]] ∧
+    Spec.tokenize [91, 93, 45, 97, 93] = [.cls false [], .lit 45, .lit 97, .lit 93] ∧
+    Spec.tokenize [91, 94] = [.cls true []] ∧ Spec.tokenize [91] = [.cls false []] := by
   decide
 
 /-- **MATCH on lossily decoded text is not sound over bytes.**  The literal pattern `\xff`
     accepts the different key `\xfe` (both become U+FFFD), which glob matching over bytes rejects;
     and `?` accepts the two-byte key `é`.  The byte-wise matcher gets both right. -/
 theorem match_sound_fails_on_invalid_utf8 :
-    Code.matchBytes true [255] [254] = true ∧ Spec.matchBytes [255] [254] = some false ∧
-    Code.matchBytes true [63] [195, 169] = true ∧ Spec.matchBytes [63] [195, 169] = some false ∧
+    Code.matchBytes true [255] [254] = true ∧ Spec.matchBytes [255] [254] = false ∧
+    Code.matchBytes true [63] [195, 169] = true ∧ Spec.matchBytes [63] [195, 169] = false ∧
     Code.matchBytes false [255] [254] = false ∧ Code.matchBytes false [63] [195, 169] = false := by
   decide
 
@@ -500,8 +510,8 @@ example : Spec.iterAfter (fun _ => true) 1 none [[[97], [98], [99]], [[98], [99]
 
 example : Code.matchBytes true [117, 115, 101, 114, 58, 42] [117, 115, 101, 114, 58, 49, 48] = true := by decide
 
--- a pattern of the agreed fragment with a negated class, a range, an escape and two stars
-example : Spec.tokenize [42, 91, 94, 97, 45, 99, 120, 93, 92, 42, 63, 42] =
-    some [.star, .cls true [(97, 99), (120, 120)], .lit 42, .any, .star] := by decide
+-- a pattern with a negated class, a reversed range, an escaped bracket, an escape and two stars
+example : Spec.tokenize [42, 91, 94, 99, 45, 97, 92, 93, 120, 93, 92, 42, 63, 42] =
+    [.star, .cls true [(97, 99), (93, 93), (120, 120)], .lit 42, .any, .star] := by decide
 
 end Ferrous.C19
